@@ -1,4 +1,4 @@
-import ScionVerif.Lemmas.Forward
+import ScionVerif.Lemmas.ForwardMulti
 /-!
 # C01 — every offered path is forwardable end to end, and so is its reverse
 
@@ -17,9 +17,18 @@ interface numberings, timestamps and expiry values, every topology that contains
 The router in these theorems is `Model/SimRouter.lean`, the model of the code that is tied to the real
 simulator by `hx_router` on every run; `Theorems/C13.lean` relates it to the forwarding rules.
 
+* `path2_walk`, `path3_walk`: a path made of two / three beaconed segments – each used in either direction,
+  each of any length ≥ 2, SegIDs initialised to the β of the first hop field in travel order – joined at
+  crossover ASes that own both adjacent hop fields (same AS, same key) and for which the pair of link types
+  is a legal segment change (`segChangeValid`, the table extracted from the Rust source), is forwarded by
+  every on-path AS and delivered in the last AS after exactly (number of hop fields − number of crossovers)
+  AS steps.  This covers up–core–down, up–down shortcuts and common-parent paths, on-path destinations,
+  up–core and core–down, and – since a reversed path is again of this shape – their replies.
+
 NOT proved (exercised by `hx_router --prop C01` on every offered path and its reverse, over pocketscion's
-own and random topologies): paths of 2–3 segments (crossovers, shortcuts, on-path), and that the SDK's
-combinator produces exactly such SegID initialisations; peering paths are a known finding (refused).
+own and random topologies): that the SDK's combinator (`combine`) produces exactly paths of this shape with
+these SegID initialisations (that is C04's subject; checked end to end here); peering paths are a known
+finding (refused).
 The second sentence of the property (a joinable pair is offered at least one path) belongs to the
 combinator's completeness (C04) and is checked by the harness against a valley-free reachability search.
 -/
@@ -69,6 +78,112 @@ theorem reply_is_reversal (macf : MacF) (ts beta0 : Nat) (es : List Entry) (hn :
   have h0 : (es.length != 0) = true := bne_iff_ne.mpr (by omega)
   have h1 : es.length - 1 - (es.length - 1) = 0 := by omega
   simp [reversePath, fwdPath, revPath, mkHops_length, h0, h1]
+
+/-! ## paths of two and three segments (crossovers at any AS whose link types allow the segment change) -/
+
+/-- **A path of two beaconed segments joined at one crossover AS is forwarded end to end**
+    (up – down incl. shortcuts and on-path destinations, up – core, core – down). -/
+theorem path2_walk (macf : MacF) (t : Topo) (now : Nat) (a b : Seg)
+    (ha : 2 ≤ a.es.length) (hb : 2 ≤ b.es.length)
+    (ta : TravelOK t a) (tb : TravelOK t b) (ma : a.Timely macf now) (mb : b.Timely macf now)
+    (jab : Junction t a b)
+    (src dst : Entry) (hsrc : a.entry 0 = some src) (hdst : b.entry (b.es.length - 1) = some dst) :
+    ∃ q, walk macf t dst.ia now false (a.es.length + b.es.length + 2) src.ia 0
+        ((frame2 macf a b).pkt (infos2 macf a b) 0 0) 0 =
+      some (.delivered dst.ia, q, a.es.length + b.es.length - 1) := by
+  have hfuel : a.es.length + b.es.length + 2 = (1 + (b.es.length - 2) + (1 + 3)) + (a.es.length - 1) := by omega
+  have hsteps : a.es.length + b.es.length - 1 = 0 + (a.es.length - 1) + 1 + (b.es.length - 2) + 1 := by omega
+  let F := frame2 macf a b
+  have oa := occ2_a macf a b ha
+  have ob := occ2_b macf a b hb
+  obtain ⟨ea, e0b, la, lb, hea, he0b, hia, hk, hla, hlb, hok⟩ := jab
+  obtain ⟨e1, I1, if1, h1e, h1a, h1I, h1o, h1w⟩ :=
+    seg_travel macf t now dst.ia F a 0 0 oa ta ma (a.es.length - 1) 0 src (infos2 macf a b) 0 0
+      (1 + (b.es.length - 2) + (1 + 3)) (by omega) hsrc ⟨fun _ => rfl, fun h => by omega⟩
+      (by simp [infos2, Seg.arrSid])
+  rw [hea] at h1e; cases h1e
+  obtain ⟨e2, I2, if2, h2e, h2a, h2I, h2o, h2w⟩ :=
+    seg_cross macf t now dst.ia F a b 0 0 oa ob ta tb ma mb ea e0b I1 if1 (0 + (a.es.length - 1))
+      ((b.es.length - 2) + (1 + 3)) la lb hea he0b hia hk hla hlb hok h1a h1I
+      (by rw [h1o 1 (by omega)]; simp [infos2])
+  obtain ⟨e3, I3, if3, h3e, h3a, h3I, h3o, h3w⟩ :=
+    seg_travel macf t now dst.ia F b (0 + 1) (0 + a.es.length) ob tb mb (b.es.length - 2) 1 e2 I2 if2
+      (0 + (a.es.length - 1) + 1) (1 + 3) (by omega) h2e h2a h2I
+  rw [hdst] at h3e; cases h3e
+  obtain ⟨q, h6w⟩ := seg_deliver macf t now F b (0 + 1) (0 + a.es.length) ob tb mb
+    (by simp [F, frame2]) dst I3 if3 (0 + (a.es.length - 1) + 1 + (b.es.length - 2)) 3 hdst h3a h3I
+  refine ⟨q, ?_⟩
+  have e12 : 1 + (b.es.length - 2) + (1 + 3) = (b.es.length - 2) + (1 + 3) + 1 := by omega
+  have e23 : (b.es.length - 2) + (1 + 3) = (1 + 3) + (b.es.length - 2) := by omega
+  have e56 : 1 + 3 = 3 + 1 := rfl
+  rw [hfuel, hsteps, show (F.pkt (infos2 macf a b) 0 0) = F.pkt (infos2 macf a b) 0 (0 + 0) from rfl, h1w, e12, h2w,
+    e23, h3w, e56, h6w]
+
+
+/-- **A path of three beaconed segments joined at two crossover ASes is forwarded end to end.**
+    (`a`, `b`, `c` in travel order, each in either direction; e.g. up – core – down.) -/
+theorem path3_walk (macf : MacF) (t : Topo) (now : Nat) (a b c : Seg)
+    (ha : 2 ≤ a.es.length) (hb : 2 ≤ b.es.length) (hc : 2 ≤ c.es.length)
+    (ta : TravelOK t a) (tb : TravelOK t b) (tc : TravelOK t c)
+    (ma : a.Timely macf now) (mb : b.Timely macf now) (mc : c.Timely macf now)
+    (jab : Junction t a b) (jbc : Junction t b c)
+    (src dst : Entry) (hsrc : a.entry 0 = some src) (hdst : c.entry (c.es.length - 1) = some dst) :
+    ∃ q, walk macf t dst.ia now false (a.es.length + b.es.length + c.es.length + 2) src.ia 0
+        ((frame3 macf a b c).pkt (infos3 macf a b c) 0 0) 0 =
+      some (.delivered dst.ia, q, a.es.length + b.es.length + c.es.length - 2) := by
+  let F := frame3 macf a b c
+  have oa := occ3_a macf a b c ha
+  have ob := occ3_b macf a b c hb
+  have oc := occ3_c macf a b c hc
+  obtain ⟨ea, e0b, la, lb, hea, he0b, hia, hk, hla, hlb, hok⟩ := jab
+  obtain ⟨eb, e0c, la', lb', heb, he0c, hia', hk', hla', hlb', hok'⟩ := jbc
+  -- 1. along segment a
+  obtain ⟨e1, I1, if1, h1e, h1a, h1I, h1o, h1w⟩ :=
+    seg_travel macf t now dst.ia F a 0 0 oa ta ma (a.es.length - 1) 0 src (infos3 macf a b c) 0 0
+      (1 + (b.es.length - 2) + (1 + (c.es.length - 2) + (1 + 4))) (by omega) hsrc ⟨fun _ => rfl, fun h => by omega⟩
+      (by simp [infos3, Seg.arrSid])
+  rw [hea] at h1e; cases h1e
+  -- 2. crossover a -> b
+  obtain ⟨e2, I2, if2, h2e, h2a, h2I, h2o, h2w⟩ :=
+    seg_cross macf t now dst.ia F a b 0 0 oa ob ta tb ma mb ea e0b I1 if1 (0 + (a.es.length - 1))
+      ((b.es.length - 2) + (1 + (c.es.length - 2) + (1 + 4))) la lb hea he0b hia hk hla hlb hok h1a h1I
+      (by rw [h1o 1 (by omega)]; simp [infos3])
+  -- 3. along segment b
+  obtain ⟨e3, I3, if3, h3e, h3a, h3I, h3o, h3w⟩ :=
+    seg_travel macf t now dst.ia F b (0 + 1) (0 + a.es.length) ob tb mb (b.es.length - 2) 1 e2 I2 if2
+      (0 + (a.es.length - 1) + 1) (1 + (c.es.length - 2) + (1 + 4)) (by omega) h2e h2a h2I
+  rw [heb] at h3e; cases h3e
+  -- 4. crossover b -> c
+  have hI3c : I3[0 + 1 + 1]? = some (c.info (c.beta macf 0)) := by
+    rw [h3o 2 (by omega), h2o 2 (by omega) (by omega), h1o 2 (by omega)]; simp [infos3]
+  obtain ⟨e4, I4, if4, h4e, h4a, h4I, h4o, h4w⟩ :=
+    seg_cross macf t now dst.ia F b c (0 + 1) (0 + a.es.length) ob oc tb tc mb mc eb e0c I3 if3
+      (0 + (a.es.length - 1) + 1 + (b.es.length - 2)) ((c.es.length - 2) + (1 + 4)) la' lb' heb he0c hia' hk' hla' hlb' hok'
+      h3a h3I hI3c
+  -- 5. along segment c
+  obtain ⟨e5, I5, if5, h5e, h5a, h5I, h5o, h5w⟩ :=
+    seg_travel macf t now dst.ia F c (0 + 1 + 1) (0 + a.es.length + b.es.length) oc tc mc (c.es.length - 2) 1 e4 I4 if4
+      (0 + (a.es.length - 1) + 1 + (b.es.length - 2) + 1) (1 + 4) (by omega) h4e h4a h4I
+  rw [hdst] at h5e; cases h5e
+  -- 6. delivery
+  obtain ⟨q, h6w⟩ := seg_deliver macf t now F c (0 + 1 + 1) (0 + a.es.length + b.es.length) oc tc mc
+    (by simp [F, frame3]) dst I5 if5 (0 + (a.es.length - 1) + 1 + (b.es.length - 2) + 1 + (c.es.length - 2)) 4 hdst h5a h5I
+  refine ⟨q, ?_⟩
+  have hfuel : a.es.length + b.es.length + c.es.length + 2 =
+      (1 + (b.es.length - 2) + (1 + (c.es.length - 2) + (1 + 4))) + (a.es.length - 1) := by omega
+  have hsteps : a.es.length + b.es.length + c.es.length - 2 =
+      0 + (a.es.length - 1) + 1 + (b.es.length - 2) + 1 + (c.es.length - 2) + 1 := by omega
+  rw [hfuel, hsteps]
+  have e12 : 1 + (b.es.length - 2) + (1 + (c.es.length - 2) + (1 + 4)) = (b.es.length - 2) + (1 + (c.es.length - 2) + (1 + 4)) + 1 := by omega
+  have e34 : 1 + (c.es.length - 2) + (1 + 4) = (c.es.length - 2) + (1 + 4) + 1 := by omega
+  have e56 : 1 + 4 = 4 + 1 := rfl
+  have o1 : 0 + 0 = 0 := rfl
+  rw [show (F.pkt (infos3 macf a b c) 0 0) = F.pkt (infos3 macf a b c) 0 (0 + 0) from rfl, h1w, e12, h2w]
+  have e23 : (b.es.length - 2) + (1 + (c.es.length - 2) + (1 + 4)) = (1 + (c.es.length - 2) + (1 + 4)) + (b.es.length - 2) := by omega
+  rw [e23, h3w, e34, h4w]
+  have e45 : (c.es.length - 2) + (1 + 4) = (1 + 4) + (c.es.length - 2) := by omega
+  rw [e45, h5w, e56, h6w]
+
 
 /-! ## non-vacuity: a concrete 3-AS chain satisfies `ChainOK` and `Timely` -/
 example :
